@@ -3,6 +3,7 @@ import CprocVerif.Lemmas.PPEqual
 import CprocVerif.Lemmas.PPString
 import CprocVerif.Lemmas.PPFuel
 import CprocVerif.Lemmas.PPInv
+import CprocVerif.Lemmas.PPObjMain
 
 /-!
 # C12 — macro definition and expansion follow C11 6.10.3 on the implemented subset
@@ -263,5 +264,65 @@ theorem too_many_args_rejected (rec : Call → St → Res) (e : EF) (st : St)
   unfold efLoopBody efFinish
   simp only [List.getD_eq_getElem?_getD] at hv
   simp [ht, hlvl, hp, hv, hi]
+
+
+/-! ## 6. Sets of object-like macros: the model is the hide-set algorithm
+
+`Good st`: every macro of the table is object-like, the rest of the input has no directive (no
+`#`), tokens are not painted, the hide-flag invariant holds.  `absSt st` is the source still to
+be processed as the reference sees it: the tokens left in the frames of the context stack, each
+with the hide set "macros with a live frame at or below it", then the tokens the scanner still
+holds (new-lines dropped). -/
+
+/-- **Any set of object-like macros (mutual and self reference included): the token stream of the
+model is the token stream of the reference.**  If the model's run completes, the reference —
+with `J` units of fuel or more — completes without diagnostic and delivers the same tokens by
+class and spelling (after `keyword()`; the model's final `TEOF` aside). -/
+theorem object_like_correct (n : Nat) (st : St) (g : Good st) (hrun : (run n st).2 = none) :
+    ∃ J, ∀ K,
+      (MacroRef.expandH false (K + J) (toTbl st.macros) (absSt st)).2.1 = none ∧
+      (MacroRef.expandH false (K + J) (toTbl st.macros) (absSt st)).1.map (fun t => kwKey t.tok.key)
+        = runKeys (run n st).1 := by
+  obtain ⟨J, hJ⟩ := run_sim n st g hrun
+  refine ⟨J, fun K => ?_⟩
+  have := hJ K
+  constructor
+  · have h1 := congrArg Prod.snd this.1
+    exact h1
+  · have h2 := this.2
+    simp only [outKeys, List.map_map] at h2
+    exact h2
+
+/-- the initial state of a unit whose macro table is `ms` and whose remaining text is `raw` -/
+theorem good_init (ms : List Macro) (raw : List Tok)
+    (hnames : (ms.map (·.name)).Nodup) (hobj : ∀ m ∈ ms, m.func = false) (hhide : ∀ m ∈ ms, m.hide = false)
+    (hbody : ∀ m ∈ ms, ∀ t ∈ m.body, okKind t)
+    (hraw : ∀ t ∈ raw, t.kind ≠ .THASH ∧ t.kind ≠ .TNONE ∧ t.kind ≠ .TEOF ∧ t.hide = false) :
+    Good { raw := raw, macros := ms } :=
+  ⟨⟨hnames, List.nodup_nil, (by intro m hm; simp [liveNames, hhide m hm]), rfl⟩, hobj,
+   (fun t ht => ⟨(hraw t ht).1, (hraw t ht).2.1, (hraw t ht).2.2.1⟩), (fun t ht => (hraw t ht).2.2.2),
+   (by intro f hf; cases hf), hbody, rfl⟩
+
+/-- **A macro is marked ineligible exactly while one of its frames is live** — after every
+completed `next()` on a good state (object-like macro sets, any mutual or self reference). -/
+theorem hide_iff_active (n : Nat) (st st' : St) (g : Good st) (h : exec n .next st = .ok st') :
+    ∀ m ∈ st'.macros, (m.hide = true ↔ ∃ f ∈ st'.ctx, f.mac = some m.name) := by
+  have g' := (next_sim n st st' g h).1
+  intro m hm
+  rw [g'.inv.hideIff m hm]
+  simp only [liveNames, List.mem_filterMap]
+
+-- non-vacuity: `#define A B x` / `#define B A y` / `#define C C` (mutual and self reference), text `A C B`
+def mAB : Macro := { func := false, name := b!"A", body := [ident b!"B" true, ident b!"x" true] }
+def mBA : Macro := { func := false, name := b!"B", body := [ident b!"A" true, ident b!"y" true] }
+def mCC : Macro := { func := false, name := b!"C", body := [ident b!"C" true] }
+def stObj : St := { raw := [ident b!"A", ident b!"C" true, NL, ident b!"B"], macros := [mAB, mBA, mCC] }
+
+example : Good stObj :=
+  good_init _ _ (by decide) (by decide) (by decide) (by unfold okKind; decide) (by decide)
+example : (run 40 stObj).2 = none := by decide +kernel
+example : runKeys (run 40 stObj).1 =
+    [(.TIDENT, some b!"A"), (.TIDENT, some b!"y"), (.TIDENT, some b!"x"), (.TIDENT, some b!"C"),
+     (.TIDENT, some b!"B"), (.TIDENT, some b!"x"), (.TIDENT, some b!"y")] := by decide +kernel
 
 end CprocVerif.C12
